@@ -220,7 +220,34 @@ class SymCtx(BaseCtx):
         st["solver_s"] += dt
         st["queries"] += 1
         st["max_query_s"] = max(st["max_query_s"], dt)
+        if r != z3.unknown and st.get("cross_left", 0) > 0:
+            st["cross_left"] -= 1
+            self._cross_check(r, s)
         return r, s
+
+    def _cross_check(self, r, s):
+        """second opinion: the same query (SMT-LIB2 text dumped by z3) is decided by cvc5; a disagreement is a harness
+        error (the run is inconclusive), cvc5 unknown / unsupported syntax is only counted"""
+        st = self.stats
+        c = st.setdefault("cross", dict(checked=0, agree=0, unknown=0, error=0, disagree=[], cvc5_s=0.0))
+        c["checked"] += 1
+        t0 = time.time()
+        try:
+            ans = core.cvc5_check(s.to_smt2(), int(st.get("cross_timeout_ms", 4000)))
+        except Exception as e:  # parse error on a z3-only operator, missing wheel ...
+            c["error"] += 1
+            c.setdefault("errors", [])
+            if len(c["errors"]) < 3:
+                c["errors"].append(f"{type(e).__name__}: {str(e)[:160]}")
+            return
+        finally:
+            c["cvc5_s"] += time.time() - t0
+        if ans == str(r):
+            c["agree"] += 1
+        elif ans in ("sat", "unsat"):
+            c["disagree"].append(f"{self.case_id}: z3 {r} / cvc5 {ans}")
+        else:
+            c["unknown"] += 1
 
     def _discharge(self):
         """obligations of this path: one batched query for the conjunction; individual queries only
